@@ -33,7 +33,10 @@ META = {
             'skip-flag after every step (runs of the known early-believed deviation are matched against the Dev variant '
             'of the spec and validated to their end); sampled executions, random multi-fault histories over 13 '
             'datatypes incl. loadParameters(), faults at every concrete FS call (buffered and unbuffered writes) and '
-            'byte-level corruption sweeps of stored files are validated by TLC as traces (Trace_Persistent).',
+            'byte-level corruption sweeps of stored files are validated by TLC as traces (Trace_Persistent). Also in the '
+            'alphabet: loadParameters, factory_reset, changes by write / driver / read-back, refused values and failing '
+            'hardware, parameters without default ("not initialized" flag), configured defaults, persistent limits, '
+            'persistent = off / not persistent parameters and foreign keys, removal of the directory under the process.',
     'note': 'Trusted: TLC; the FakeFS (written data reaches the disk per write() call or only at flush/close - both '
             'modes are run; a crash drops all later operations; no reordering of rename vs data as a real disk '
             'without fsync could do); datatypes '
